@@ -1,5 +1,6 @@
 import MosdnsVerif.Gen.FnNetlist
 import MosdnsVerif.Lemmas.Loop
+import MosdnsVerif.Props.C13
 
 /-!
 # Refinement for C13: the regenerated `List.Contains`
@@ -165,5 +166,75 @@ theorem listContains_eq (e : List Go.Pfx) (hs : SortedBase e) (a fuel : Nat) (hf
 
 theorem listContains_invalid (e : List Go.Pfx) (a fuel : Nat) : Gen.listContains e false a fuel = false := by
   unfold Gen.listContains; simp
+
+/-- A stored `netip.Prefix` as the model's interval. -/
+def toIv (p : Go.Pfx) : Model.C13.Iv := Model.C13.Iv.ofPrefix ⟨p.1, p.2⟩
+
+open Model.C13 in
+/-- **The regenerated `Contains` is the model's `containsRev`** (on the reversed slice) for every slice
+of masked prefixes sorted by base - so the binary search is no longer a trusted specification. -/
+theorem listContains_model (e : List Go.Pfx) (hs : SortedBase e)
+    (hst : ∀ p ∈ e, Props.C13.Stored ⟨p.1, p.2⟩) (a fuel : Nat) (hf : e.length ≤ fuel) :
+    Gen.listContains e true a fuel = containsRev (e.reverse.map toIv) a := by
+  rw [listContains_eq e hs a fuel hf]
+  unfold lastLe containsRev
+  rw [List.find?_map]
+  have hfun : ((fun p : Iv => decide (p.lo ≤ a)) ∘ toIv) = (fun p : Go.Pfx => decide (p.1 ≤ a)) := rfl
+  rw [hfun]
+  cases hfind : e.reverse.find? (fun p : Go.Pfx => decide (p.1 ≤ a)) with
+  | none => rfl
+  | some p =>
+    have hmem : p ∈ e := List.mem_reverse.mp (List.mem_of_find?_eq_some hfind)
+    simp only [Option.map_some]
+    exact Props.C13.covers_iff_interval ⟨p.1, p.2⟩ (hst p hmem).1 a
+
+/-! ## The regenerated text loaders
+
+`Gen.loadFromTextPrefix` (`netlist.LoadFromText`, list files) and
+`Gen.ipSetParsePrefix` (`ip_set.parseNetipPrefix`, inline `ips`) are the Go
+functions with the `netip` parsers as parameters; both are the model's
+`loadLine`, so the two loaders store the same prefix for the same line, and
+a single-address line covers exactly that address. -/
+
+open Model.C13 in
+theorem loadFromText_eq (hasSlash : Bool) (pp : Option (PAddr × Int)) (pa : Option PAddr) :
+    Gen.loadFromTextPrefix hasSlash pp pa = loadLine hasSlash pp pa := by
+  unfold Gen.loadFromTextPrefix loadLine hostBits
+  cases hasSlash
+  · cases pa with
+    | none => rfl
+    | some a => obtain ⟨is6, x⟩ := a; cases is6 <;> rfl
+  · cases pp <;> rfl
+
+open Model.C13 in
+theorem ipSetParse_eq (hasSlash : Bool) (pp : Option (PAddr × Int)) (pa : Option PAddr) :
+    Gen.ipSetParsePrefix hasSlash pp pa = loadLine hasSlash pp pa := by
+  unfold Gen.ipSetParsePrefix loadLine hostBits
+  cases hasSlash
+  · cases pa with
+    | none => rfl
+    | some a => obtain ⟨is6, x⟩ := a; cases is6 <;> rfl
+  · rfl
+
+/-- **The file loader and the inline loader agree on every line.** -/
+theorem loaders_agree (hasSlash : Bool) (pp : Option ((Bool × Nat) × Int)) (pa : Option (Bool × Nat)) :
+    Gen.loadFromTextPrefix hasSlash pp pa = Gen.ipSetParsePrefix hasSlash pp pa := by
+  rw [loadFromText_eq, ipSetParse_eq]
+
+open Model.C13 in
+/-- **A single-address line of a list file**, in whatever form (`a.b.c.d`, `::ffff:a.b.c.d`, IPv6), is
+accepted and the prefix `Append` stores for it covers exactly that address. -/
+theorem text_host_line_single (pp : Option (PAddr × Int)) (a : PAddr) :
+    ∃ r, Gen.loadFromTextPrefix false pp (some a) = some r ∧ ∀ y, (storeLine r).covers y = true ↔ y = a.to6 := by
+  refine ⟨(a, hostBits a), by rw [loadFromText_eq]; rfl, ?_⟩
+  intro y
+  exact Props.C13.host_line_single a y
+
+open Model.C13 in
+theorem ipset_host_line_single (pp : Option (PAddr × Int)) (a : PAddr) :
+    ∃ r, Gen.ipSetParsePrefix false pp (some a) = some r ∧ ∀ y, (storeLine r).covers y = true ↔ y = a.to6 := by
+  refine ⟨(a, hostBits a), by rw [ipSetParse_eq]; rfl, ?_⟩
+  intro y
+  exact Props.C13.host_line_single a y
 
 end Refine.C13
